@@ -209,12 +209,23 @@ def read_case(case, fn, n_expected):
 
 
 def _read_case(case, fn, n_expected):
+    """Replay the capture.  `restarts` = [[k, op], ...]: when k packets have been read from
+    the file the reading thread is held, the connector is stopped and started again
+    (op "stop_start": connector.stop(); connector.start(); op "reconfigure": the Sniffer's
+    configuration setter, i.e. stop + re-enable the sniffing mode, then start()), then the replay goes on."""
     domain = case["domain"]
     del THREAD_EXC[:]
     dev = Pcap("flush:" + fn)
     raws = []
     orig_read = dev.read
+    gates = {int(k): op for k, op in (case.get("restarts") or [])}
+    ready, resume = threading.Event(), threading.Event()
     def tap():
+        k = len(raws)
+        if k in gates and gates[k] is not None:
+            ready.set()
+            resume.wait(timeout=15)
+            resume.clear()
         r = orig_read()
         if r:
             raws.append(bytes(r))
@@ -224,6 +235,32 @@ def _read_case(case, fn, n_expected):
     got = []
     s.attach_callback(lambda p: got.append(b_items(domain, p)), on_reception=True, on_transmission=False)
     s.start()
+    ops_done = []
+    for k in sorted(gates):
+        if k <= 0 or k >= n_expected:
+            gates[k] = None
+            continue
+        if not ready.wait(timeout=15):
+            ops_done.append([k, "gate-not-reached"])
+            gates[k] = None
+            continue
+        ready.clear()
+        t1 = _time.time()
+        while len(got) < k and not THREAD_EXC and _time.time() - t1 < 15.0:
+            _time.sleep(0.001)
+        op = gates[k]
+        try:
+            if op == "reconfigure":
+                s.configuration = s.configuration     # stop + re-enable the sniffing mode
+                s.start()
+            else:
+                s.stop()
+                s.start()
+            ops_done.append([k, op])
+        except Exception as e:  # noqa
+            ops_done.append([k, "!" + type(e).__name__])
+        gates[k] = None
+        resume.set()
     t0 = _time.time()
     while dev.opened and not THREAD_EXC and _time.time() - t0 < 20:
         _time.sleep(0.002)
@@ -235,6 +272,8 @@ def _read_case(case, fn, n_expected):
             fn_()
         except Exception:  # noqa
             pass
+    if ops_done:
+        case["_ops_done"] = ops_done
     return [pb_fields(r) for r in raws], got, list(THREAD_EXC)
 
 
@@ -295,6 +334,8 @@ def run_case(case, tmp, k):
         if os.path.exists(fn):
             os.remove(fn)
     res = {"written": recs, "A": A, "B": B, "n_written": n, "in": attrs}
+    if case.get("_ops_done"):
+        res["ops_done"] = case["_ops_done"]
     if texc:
         res["replay_thread_exc"] = texc
     if khz is not None:
